@@ -968,6 +968,13 @@ func (c *Ctx) errorsNotSkippedIO(rule string, fn *ssa.Function) {
 			timeout := false
 			for k := i + 1; k < len(p.Events) && j < 0; k++ {
 				n := &p.Events[k]
+				if n.Kind == pathx.KCall && n.Method != nil && n.Method.Name() == "Timeout" && !n.Deferred {
+					// (also inside a predicate helper expanded in place)
+					if rl, _, kn := p.Known(n.Result, k, -1); kn && rl == pathx.RTrue {
+						timeout = true
+					}
+					continue
+				}
 				if n.Depth != 0 || n.Deferred {
 					continue
 				}
@@ -976,6 +983,9 @@ func (c *Ctx) errorsNotSkippedIO(rule string, fn *ssa.Function) {
 					name := stdName(n.Callee)
 					if name == "errors.Is" || name == "errors.As" || name == "fmt.Errorf" || name == "errors.Join" {
 						continue
+					}
+					if c.isNewHelper(n.Callee) {
+						continue // expanded in place: its own steps follow
 					}
 					if n.Method != nil && n.Method.Name() == "Timeout" {
 						if rl, _, kn := p.Known(n.Result, k, -1); kn && rl == pathx.RTrue {
